@@ -3,7 +3,8 @@
 //! A state is a real `Ciphertext` plus its shadow (plaintext polynomial in Z_t[X]/(X^N+1)), an
 //! a-priori noise bound (bits) and the program that produced it. Transitions apply one real
 //! Evaluator operation (in its three API forms) to one or two reached states.
-//!   phase A: concrete closure to depth 2 (every program of <= 2 operations over the alphabets),
+//!   phase A: concrete closure to depth 2 (every program of <= 2 operations over the alphabets;
+//!            thorough: also depth 3 where every binary operation has an operand of depth <= 1),
 //!            states deduplicated by (metadata, shadow)
 //!   phase B: abstract closure to fixpoint, key = (level, size, representation, BGV factor),
 //!            one concrete witness per abstract state, every (operation, abstract operand tuple)
@@ -943,7 +944,7 @@ pub fn naive_intt(ahat: &[u64], psi: u64, q: u64) -> Vec<u64> {
 // ---------------------------------------------------------------------------------------------
 
 const CHUNK: usize = 100_000;
-const MAX_ROUND: usize = 6_000_000;
+const MAX_ROUND: usize = 60_000_000;
 
 #[derive(Clone)]
 enum Tr {
@@ -1100,12 +1101,18 @@ impl AnySection for E2Section {
         // phase A: concrete closure
         let np = sys.plains.len();
         let mut frontier_start = 0usize;
+        let mut shallow_end = 0usize;
         let mut depth_done = 0;
         let mut capped = false;
         for round in 1..=self.depth {
             let known = states.len();
             let mut trs: Vec<Tr> = vec![];
             let is_new = |i: usize| i >= frontier_start;
+            if round == 2 {
+                shallow_end = known;
+            }
+            // round 3 (thorough): programs of depth 3 in which every binary operation has an operand of depth <= 1
+            let partner_limit = if round >= 3 { shallow_end } else { known };
             for a in 0..known {
                 if is_new(a) {
                     for op in UNOPS {
@@ -1120,7 +1127,7 @@ impl AnySection for E2Section {
                     }
                 }
                 for b in 0..known {
-                    if is_new(a) || is_new(b) {
+                    if (is_new(a) && b < partner_limit) || (is_new(b) && a < partner_limit) {
                         for op in BINOPS {
                             trs.push(Tr::Bin(op, a, b));
                         }
@@ -1335,7 +1342,7 @@ pub fn param_sets(cfg: &RunCfg) -> Vec<(String, ParamSpec, usize, bool)> {
     let th = cfg.thorough();
     let mut v = vec![];
     // P1: BFV, N=4, batching t=17 (fast lift), four 60-bit data primes + special prime
-    v.push(("bfv_p1".to_string(), ParamSpec::new(Scheme::BFV, 4, chain(4, &[60, 60, 60, 60, 60]), 17), 2, true));
+    v.push(("bfv_p1".to_string(), ParamSpec::new(Scheme::BFV, 4, chain(4, &[60, 60, 60, 60, 60]), 17), if th { 3 } else { 2 }, true));
     // P2: BFV, power-of-two plain modulus, descending order
     v.push(("bfv_p2_pow2".to_string(), ParamSpec::new(Scheme::BFV, 4, chain(4, &[59, 50, 50, 40]), 16), 2, true));
     // P3: BFV, t larger than the smallest prime (multi-precision lift), ascending order
@@ -1343,7 +1350,7 @@ pub fn param_sets(cfg: &RunCfg) -> Vec<(String, ParamSpec, usize, bool)> {
     // P4: BGV, six 60-bit primes, t=17 (all 16 units as correction factors)
     v.push(("bgv_p4".to_string(), ParamSpec::new(Scheme::BGV, 4, chain(4, &[60, 60, 60, 60, 60, 60]), 17), 2, true));
     // P5: BGV, t=5: small unit group, abstract fixpoint in the quick tier, depth 2
-    v.push(("bgv_p5_t5".to_string(), ParamSpec::new(Scheme::BGV, 4, chain(4, &[60, 60, 60, 60, 60]), 5), 2, true));
+    v.push(("bgv_p5_t5".to_string(), ParamSpec::new(Scheme::BGV, 4, chain(4, &[60, 60, 60, 60, 60]), 5), if th { 3 } else { 2 }, true));
     // P6: BGV, multi-precision lift
     v.push(("bgv_p6_mplift".to_string(), ParamSpec::new(Scheme::BGV, 8, chain(8, &[13, 55, 60, 60, 60]), 257), 2, true));
     // P7: single modulus: no key switching, no lower level
@@ -1364,6 +1371,11 @@ pub fn param_sets(cfg: &RunCfg) -> Vec<(String, ParamSpec, usize, bool)> {
     if th {
         v.push(("bfv_p9_n16".to_string(), ParamSpec::new(Scheme::BFV, 16, chain(16, &[60, 60, 60, 60]), 97), 2, true));
         v.push(("bgv_p10_two".to_string(), ParamSpec::new(Scheme::BGV, 4, chain(4, &[60, 60]), 17), 2, true));
+        v.push(("bgv_p17_n16".to_string(), ParamSpec::new(Scheme::BGV, 16, chain(16, &[60, 60, 60, 60, 60]), 97), 2, true));
+        v.push(("bfv_p18_n32".to_string(), ParamSpec::new(Scheme::BFV, 32, chain(32, &[60, 60, 60, 60]), 193), 2, true));
+        v.push(("bgv_p19_asc".to_string(), ParamSpec::new(Scheme::BGV, 8, chain(8, &[30, 40, 50, 60]), 17), 2, true));
+        v.push(("bfv_p20_desc_small_special".to_string(), ParamSpec::new(Scheme::BFV, 8, chain(8, &[60, 50, 40, 30]), 17), 2, true));
+        v.push(("bgv_p21_t257_depth2".to_string(), ParamSpec::new(Scheme::BGV, 4, chain(4, &[60, 60, 60, 60, 60, 60]), 257), 2, true));
     }
     v
 }
